@@ -234,6 +234,16 @@ Theorem pairing_mgmt_ble_never_done : forall op d reply,
     bad_reply d 2 -> exists e, mgmt_ble op (wrap reply) = Err e.
 Proof. exact mgmt_ble_never_done. Qed.
 
+(* HISTORIES of add/remove-pairing calls on one BlePairing (any calls before, any link drops and retries within
+   the call): a call is reported done only if the transaction that was finally answered succeeded at PDU level and
+   its reply carries no Error item and no wrong State - no state may survive from earlier calls or attempts *)
+Theorem pairing_mgmt_history_done_only_on_clean_last_reply : forall calls i op evs,
+    nth_error calls i = Some (op, evs) ->
+    nth_error (mgmt_ble_history calls) i = Some (Ok MDone) ->
+    exists pre x post, evs = pre ++ Some x :: post /\ Forall (fun e => e = None) pre /\
+      fst x = 0%N /\ exists d, mgmt_payload op (snd x) = Some d /\ ~ bad_reply d 2.
+Proof. exact mgmt_history_done_clean. Qed.
+
 (* ==== extension: the error mapping is total and injective on the documented codes ============ *)
 Theorem class_injective : forall c1 c2,
     documented_code c1 -> documented_code c2 -> documented_class c1 = documented_class c2 -> c1 = c2.
@@ -330,3 +340,4 @@ Print Assumptions err_class_injective_wire.
 Print Assumptions pairing_mgmt_class_injective.
 Print Assumptions wire_never_out_of_fuel.
 Print Assumptions ble_never_out_of_fuel.
+Print Assumptions pairing_mgmt_history_done_only_on_clean_last_reply.
